@@ -612,6 +612,11 @@ def search(ctx, deep=False):
         ev += search_noise_history(gs, np.random.RandomState(ctx.seed + 311), ctx.scale(90, 600) * (3 if deep else 1), viol)
         ev += search_stored_pos(gs, np.random.RandomState(ctx.seed + 411), ctx.scale(120, 900) * (3 if deep else 1), viol)
         ev += search_output_paths(gs, np.random.RandomState(ctx.seed + 511), ctx.scale(45, 400) * (3 if deep else 1), viol)
+        ev += search_high_dim(gs, np.random.RandomState(ctx.seed + 611), ctx.scale(10, 80) * (2 if deep else 1), viol)
+        import threadcfg
+        e7, v7 = threadcfg.api_thread_sweep(ctx, ("randmeth", "fourier", "incompr"), ctx.scale(4, 30))
+        ev += e7
+        viol += v7
     seen, out = set(), []
     for v in viol:                      # one representative per key first, so that no class is crowded out
         if v["key"] not in seen:
@@ -771,6 +776,60 @@ def search_noise_history(gs, rng, N, viol):
                                  f"(max abs diff {float(np.max(np.abs(out - ref))):.3e})",
                          "case": dict(gen=gen, dim=dim, seed=seed, model=cls.__name__, params=par, change=change, new_params=new,
                                       calls=[q.tolist() for q in pts], last=last.tolist())})
+    return ev
+
+
+def search_high_dim(gs, rng, N, viol):
+    """determinism and locality in the dimensions the generic strata do not reach: dim 4 (3-D + time, lat-lon + time would be dim 3),
+    dim 4 given directly, dim 5 — the n-D branches of the samplers (RNG.sample_sphere for dim > 3) and of the position handling.
+    Same seed => same field (two fresh objects, re-seeding the same object), subset / permutation of the points => same values."""
+    ev = 0
+    for t in range(N):
+        kind = ["3d+time", "dim4", "dim5", "2d+time", "latlon+time"][t % 5]
+        cls = ["Gaussian", "Exponential", "Matern"][int(rng.randint(3))]
+        kw = dict(var=1.3, len_scale=2.0)
+        if kind == "3d+time":
+            kw.update(spatial_dim=3, temporal=True, anis=[0.7, 1.4, 0.5])
+        elif kind == "2d+time":
+            kw.update(spatial_dim=2, temporal=True, anis=[0.7, 0.5])
+        elif kind == "latlon+time":
+            kw.update(latlon=True, temporal=True, geo_scale=57.29577951308232, len_scale=25.0)
+        else:
+            kw.update(dim=4 if kind == "dim4" else 5)
+        seed = int(rng.randint(1, 10 ** 6))
+        P = int(rng.randint(3, 12))
+        desc = dict(kind=kind, cls=cls, seed=seed, points=P)
+        try:
+            with warnings.catch_warnings():
+                warnings.simplefilter("ignore")
+                mk = lambda: gs.SRF(getattr(gs, cls)(**kw), seed=seed, mode_no=24)
+                a, b = mk(), mk()
+                fdim = a.model.field_dim
+                if kind == "latlon+time":
+                    pos = np.vstack([rng.uniform(-80, 80, P), rng.uniform(-170, 170, P), rng.uniform(0, 10, P)])
+                else:
+                    pos = rng.uniform(-5, 5, size=(fdim, P))
+                desc["pos"] = pos.tolist()
+                fa, fb = np.array(a(pos)), np.array(b(pos))
+                ev += 1
+                if not np.array_equal(fa, fb):
+                    viol.append({"key": f"determinism:high-dim:{kind}", "what": "two freshly built SRFs with the same seed give different fields",
+                                 "case": desc})
+                    continue
+                a(pos, seed=seed + 1)
+                fc = np.array(a(pos, seed=seed))
+                if not np.array_equal(fa, fc):
+                    viol.append({"key": f"determinism:high-dim:{kind}:reseed", "what": "re-seeding with the same seed does not reproduce the field",
+                                 "case": desc})
+                perm = rng.permutation(P)
+                sub = perm[: max(1, P // 2)]
+                fp = np.array(b(pos[:, perm]))
+                fs = np.array(mk()(pos[:, sub]))
+                if not (np.allclose(fp, fa[perm], rtol=0, atol=1e-12) and np.allclose(fs, fa[sub], rtol=0, atol=1e-12)):
+                    viol.append({"key": f"locality:high-dim:{kind}", "what": "values depend on the order / on which other points are requested",
+                                 "case": desc})
+        except Exception as ex:
+            viol.append({"key": f"determinism:high-dim:{kind}:exception", "what": f"{type(ex).__name__}: {ex}", "case": desc})
     return ev
 
 
